@@ -297,6 +297,22 @@ theorem XI.step {c : CS} {t : T} (h : XI c t) (hi : Inv (abs c)) (hf : c.fail = 
     have hst := makeAtom_steps (pass c (.acycEdge a b cond)) cond true
     rw [hpa] at hst
     exact dom_mono hst hi x (h.m x (hpe ▸ hr ▸ hx'))
+  | heuristic a t' bias prio cond =>
+    simp only [T.step]
+    rw [apply_heu_eq c hf]
+    have hp : ∀ q, hd (pass c (.heuristic a t' bias prio cond)) q = hd c q ∧ ex (pass c (.heuristic a t' bias prio cond)) q = ex c q := by
+      intro q; unfold pass; split
+      · exact flags_emit c _ q
+      · exact ⟨rfl, rfl⟩
+    have hpe : (pass c (.heuristic a t' bias prio cond)).externs = c.externs := by unfold pass; split <;> rfl
+    have hpa : abs (pass c (.heuristic a t' bias prio cond)) = abs c := by unfold pass; split <;> rfl
+    have hfl := flags_makeAtom (pass c (.heuristic a t' bias prio cond)) cond true
+    have hr := makeAtom_externs (pass c (.heuristic a t' bias prio cond)) cond true
+    refine ⟨fun q => ((hfl q).1).trans ((hp q).1.trans (h.h q)), (hr.trans hpe).trans h.r, fun q => ((hfl q).2).trans ((hp q).2.trans (h.v q)), ?_⟩
+    intro x hx'
+    have hst := makeAtom_steps (pass c (.heuristic a t' bias prio cond)) cond true
+    rw [hpa] at hst
+    exact dom_mono hst hi x (h.m x (hpe ▸ hr ▸ hx'))
   | external a v =>
     simp only [T.step]
     have hrm := rest_mapAtom c a
